@@ -323,16 +323,32 @@ func (w *vrWorld) c03Generated() {
 			w.prune()
 			w.located(w.poolRoot())
 		case r < 91:
-			if rng.Intn(3) == 0 {
+			if rng.Intn(5) == 0 { // close to (or past) the proof windows: locks are refused
 				w.setHeight(800 + uint64(rng.Intn(400)))
-			} else {
-				w.setHeight(10 + uint64(rng.Intn(50)))
+				if len(w.order1) > 0 {
+					id := w.order1[rng.Intn(len(w.order1))]
+					if s := ss[id]; s == nil || !s.locked {
+						if w.lock1(id) {
+							w.unlock1(id)
+						}
+					}
+				}
 			}
+			w.setHeight(10 + uint64(rng.Intn(50)))
 		case r < 94:
 			w.restart()
 			ss = map[types.FileContractID]*sess{}
 		case r < 96:
-			w.lock1(w.freshID())
+			if rng.Intn(2) == 0 {
+				w.lock1(w.freshID())
+			} else { // a second caller on a contract some session holds: it has to wait
+				for _, id := range w.order1 {
+					if s := ss[id]; s != nil && s.locked {
+						w.lock1(id)
+						break
+					}
+				}
+			}
 		default:
 			if len(w.order1) > 0 && rng.Intn(2) == 0 {
 				w.look(w.order1[rng.Intn(len(w.order1))], false)
@@ -342,9 +358,8 @@ func (w *vrWorld) c03Generated() {
 		}
 	}
 	// end the sessions in order
-	for id, s := range ss {
-		_ = id
-		if s.slot >= 0 {
+	for _, id := range w.order1 {
+		if s := ss[id]; s != nil && s.slot >= 0 {
 			w.commit1(s.slot, -1)
 			w.close1(s.slot)
 		}
